@@ -42,6 +42,31 @@ func vfC10DrawVocab(t *rapid.T, minMACs int) (v vfC10Vocab) {
 	var first, size int
 	outside := "10.0.1.7"
 	var inSubnetFar []string
+	if rapid.IntRange(0, 5).Draw(t, "wide_subnet") == 0 {
+		// a /23 whose pool runs across the boundary of the third octet
+		v.conf.Mask = "255.255.254.0"
+		v.conf.Gateway = "10.0.0.1"
+		size = rapid.IntRange(3, 8).Draw(t, "pool_size")
+		before := rapid.IntRange(1, size-1).Draw(t, "pool_before_boundary")
+		addr := func(i int) string {
+			n := 256 - before + i
+			return fmt.Sprintf("10.0.%d.%d", n/256, n%256)
+		}
+		v.conf.Start, v.conf.End = addr(0), addr(size-1)
+		for i := 0; i < size; i++ {
+			v.pool = append(v.pool, addr(i))
+		}
+		nm := rapid.IntRange(minMACs, len(vfC10MACs)).Draw(t, "n_macs")
+		v.macs = vfC10MACs[:nm]
+		v.ips = append(v.ips, v.pool...)
+		v.ips = append(v.ips, v.pool...)
+		v.ips = append(v.ips, v.conf.Gateway, addr(-1), addr(size), "10.0.2.7", "0.0.0.0", "10.0.0.200", "10.0.1.254")
+		v.hosts = []string{"", "", "alpha", "beta", "gamma", "Alpha", "my pc", strings.ReplaceAll(v.pool[0], ".", "-"),
+			strings.ReplaceAll(v.pool[size-1], ".", "-")}
+		vfC10.Class("vocab:pool_across_third_octet")
+
+		return v
+	}
 	if rapid.IntRange(0, 3).Draw(t, "narrow_subnet") == 0 {
 		v.conf.Mask = "255.255.255.240"
 		size = rapid.IntRange(2, 6).Draw(t, "pool_size")
